@@ -43,6 +43,8 @@ def scenarios(tier, rng):
                     kw["async"] = rng.random() < 0.5
                 if rng.random() < 0.5:
                     kw["positional"] = True          # the documented parameter order, passed positionally
+                if kind != "VI" and rng.random() < 0.5:
+                    kw["via_class"] = "VI"           # ValueIteration.restore(dir) on another solver's directory
             # explicit step: one of the retained steps of a run of k1 iterations with this cadence
             if kw.get("step") == "EXPLICIT":
                 due = sorted({i for i in range(1, k1 + 1) if i % freq == 0} | {k1})
@@ -65,6 +67,13 @@ def scenarios(tier, rng):
                                            restore_op(full, new_dir="@B", freq=3, max=2, positional=True, **{"async": True}),
                                            {"op": "solve", "k": 6}, {"op": "wait"}, {"op": "list", "dir": "@B"},
                                            {"op": "list", "dir": "@A"}], "check_unchanged_A": True}]))
+    # restore() called through the base class on every other solver's directory (as the documentation's examples do)
+    for kind, pname in (("RVI", "forest"), ("PVI", "forest12"), ("PI", "forest"), ("SAVI", "forest")):
+        pspec, full = P[pname]
+        out.append(base_scenario(f"{kind}-{pname}-restored-through-ValueIteration", kind, pname, pspec, full, 1, 2, False,
+                                 [{"ops": [{"op": "new"}, {"op": "solve", "k": 5}, {"op": "wait"}, {"op": "list", "dir": "@A"}]},
+                                  {"ops": [{"op": "list", "dir": "@A"}, restore_op(full, via_class="VI"), {"op": "solve", "k": BIG},
+                                           {"op": "wait"}, {"op": "list", "dir": "@A"}]}]))
     # "latest" must be the numerically latest step (9 < 10 < 11, 99 < 100)
     for kind, pname in (("VI", "forest"), ("PVI", "forest12"), ("VI", "tabular")):
         pspec, full = P[pname]
